@@ -8,3 +8,14 @@ def p_many(ctx):
     for name, model, detail in c14_many.check(ctx, 10000 if ctx.tier == "quick" else 60000):
         ctx.violation(name, {"function": "util._get_fmd" if name.startswith("get_fmd") else "util.metadata_from_many", "model": model,
                              "solver_output": str(model)[:600], "snippet": None}, False, what=(detail or "")[:220])
+
+
+def p_many_fetch(ctx):
+    """the footer-fetch family of the same contract, exposed to C12 (memory-safety precondition of the native thrift reader: the buffer
+    handed to from_buffer holds one complete footer) and C16 (a footer whose size changed must still be fetched completely):
+    many.fast_path.piece_covers_footer_and_trailer, many.fast.*, get_fmd.*"""
+    ctx.assumptions += [a for a in c14_many.ASSUMED if a not in ctx.assumptions]
+    fam = lambda name: name.startswith(c14_many.FETCH_FAMILY)
+    for name, model, detail in c14_many.check(ctx, 10000 if ctx.tier == "quick" else 60000, only=fam):
+        ctx.violation(name, {"function": "util._get_fmd" if name.startswith("get_fmd") else "util.metadata_from_many", "model": model,
+                             "solver_output": str(model)[:600], "snippet": None}, False, what=(detail or "")[:220])
